@@ -431,7 +431,13 @@ class PerformSubnetScan(Contract):
         cell.content = ctx.fresh("T_ss", A2)
         arcls = I.repo.cls("nasim.envs.action.ActionResult")
         ks, vs = SDict.sorts(2, "bool")
-        if S.sig.symbolic:
+        # the two result dicts are filled only when the scan is performed (target compromised with the required access)
+        v0_ = V.View(S.sig, S.old["T"])
+        t_ = S.sig.hnum(S.act.tsub, S.act.thid)
+        performed = ctx.branch(z3.And(v0_.comp(t_), v0_.acc(t_) >= z3.ToReal(S.act.req)))
+        if not performed:
+            mkd = lambda nm: PyDict({})
+        elif S.sig.symbolic:
             mkd = lambda nm: SDict(2, "bool", ctx.fresh(nm + "_dom", z3.ArraySort(I_, I_, B_)),
                                    ctx.fresh(nm + "_val", z3.ArraySort(I_, I_, B_)), keyseq=S.sig.addr_seq(), label=nm)
         else:
